@@ -352,11 +352,13 @@ func (pid *grainPID) isActive() bool {
 func (pid *grainPID) receive(grainContext *GrainContext) {
 	verifhook.At("gr.receive", pid.identity, 0, 0)
 	if !pid.isActive() {
+		verifhook.At("gr.done", pid.identity, 0, 0)
 		return
 	}
 
 	if err := pid.mailbox.Enqueue(grainContext); err != nil {
 		grainContext.Err(err)
+		verifhook.At("gr.done", pid.identity, 0, 0)
 		return
 	}
 
@@ -364,6 +366,7 @@ func (pid *grainPID) receive(grainContext *GrainContext) {
 		verifhook.At("turn.push", &pid.schedState, 0, 0)
 		pid.dispatcher.schedule(pid)
 	}
+	verifhook.At("gr.done", pid.identity, 1, 0)
 }
 
 // runTurn implements schedulable. A dispatcher worker calls this after
